@@ -766,6 +766,13 @@ type cutFidelity struct {
 	Paths int
 	Bad   []string
 	Skip  []string
+	recs  map[string][]cutRecord
+}
+
+type cutRecord struct {
+	a, b         int
+	pre, post    string
+	starts, ends bool
 }
 
 func (cf *cutFidelity) check(pe *bufPathEval, st *bpState) {
@@ -776,12 +783,8 @@ func (cf *cutFidelity) check(pe *bufPathEval, st *bpState) {
 		}
 	}
 	name := pe.bs.fn.Name()
-	if len(cuts) == 0 {
-		return
-	}
-	if len(cuts) > 1 {
-		cf.Bad = append(cf.Bad, name+": a path writes the term more than once")
-		return
+	if len(cuts) != 1 {
+		return // the term is not written on this path, or the path writes two terms (a candidate, not the URL helper)
 	}
 	c := st.seq[cuts[0]].cut
 	lit := func(pcs []pathPiece) (string, bool) {
@@ -803,28 +806,53 @@ func (cf *cutFidelity) check(pe *bufPathEval, st *bpState) {
 	pre, ok1 := lit(st.seq[:cuts[0]])
 	post, ok2 := lit(st.seq[cuts[0]+1:])
 	if !ok1 || !ok2 {
-		cf.Skip = append(cf.Skip, name+": a path writes something besides constants and the term")
-		return
+		pre, post = "?", "?"
 	}
-	cf.Paths++
 	d := st.lang[c.key]
 	b := relang.Literal(pe.L.A, string(cf.Byte))
 	starts, _ := relang.Subset(d, relang.Concat(b, pe.any))
 	ends, _ := relang.Subset(d, relang.Concat(pe.any, b))
-	side := func(which string, n int, tested bool, written string) {
-		switch {
-		case n == 0 && written == "":
-		case n == 1 && tested && written != "" && written != "?":
-		case n == 0:
-			cf.Bad = append(cf.Bad, fmt.Sprintf("%s: a path writes %q %s the term without having cut a byte off there: the token that comes out is not the token that went in", name, written, which))
-		case n == 1 && !tested:
-			cf.Bad = append(cf.Bad, fmt.Sprintf("%s: a path cuts a byte off %s the term that it has not tested to be %q", name, which, string(cf.Byte)))
-		case n == 1:
-			cf.Bad = append(cf.Bad, fmt.Sprintf("%s: a path cuts the %q off %s the term and writes %q in its place instead of its encoding", name, string(cf.Byte), which, written))
-		default:
-			cf.Bad = append(cf.Bad, fmt.Sprintf("%s: a path cuts %d bytes off %s the term", name, n, which))
+	if cf.recs == nil {
+		cf.recs = map[string][]cutRecord{}
+	}
+	cf.recs[name] = append(cf.recs[name], cutRecord{c.a, c.b, pre, post, starts, ends})
+}
+
+// evaluate judges the helpers that cut the term on some path (the comma-encoding helper); a function that only
+// writes the term whole among other things (a candidate writer) is not one.
+func (cf *cutFidelity) evaluate() {
+	for name, recs := range cf.recs {
+		cutsSomewhere := false
+		for _, r := range recs {
+			if r.a > 0 || r.b > 0 {
+				cutsSomewhere = true
+			}
+		}
+		if !cutsSomewhere {
+			continue
+		}
+		for _, r := range recs {
+			if r.pre == "?" || r.post == "?" {
+				cf.Skip = append(cf.Skip, name+": a path writes something besides the encoded byte and the term")
+				continue
+			}
+			cf.Paths++
+			side := func(which string, n int, tested bool, written string) {
+				switch {
+				case n == 0 && written == "":
+				case n == 1 && tested && written != "":
+				case n == 0:
+					cf.Bad = append(cf.Bad, fmt.Sprintf("%s: a path writes %q %s the term without having cut a byte off there: the token that comes out is not the token that went in", name, written, which))
+				case n == 1 && !tested:
+					cf.Bad = append(cf.Bad, fmt.Sprintf("%s: a path cuts a byte off %s the term that it has not tested to be %q", name, which, string(cf.Byte)))
+				case n == 1:
+					cf.Bad = append(cf.Bad, fmt.Sprintf("%s: a path cuts the %q off %s the term and writes nothing in its place", name, string(cf.Byte), which))
+				default:
+					cf.Bad = append(cf.Bad, fmt.Sprintf("%s: a path cuts %d bytes off %s the term", name, n, which))
+				}
+			}
+			side("before", r.a, r.starts, r.pre)
+			side("after", r.b, r.ends, r.post)
 		}
 	}
-	side("before", c.a, starts, pre)
-	side("after", c.b, ends, post)
 }
